@@ -171,3 +171,26 @@ def relayout(a, kind):
         b.flags.writeable = False
         return b
     return np.ascontiguousarray(a)
+
+
+def scribble(out):
+    """Overwrite a RETURNED array in place, as a caller who owns its result may do (g *= -1, mask[...] = 0).
+    A later call of the same function with the same arguments must not be affected (no result may alias an
+    internal cache). Returns the number of arrays overwritten; read-only results are left alone."""
+    n = 0
+    if isinstance(out, (tuple, list)):
+        for o in out:
+            n += scribble(o)
+        return n
+    if isinstance(out, np.ndarray) and out.size and out.flags.writeable:
+        try:
+            if out.dtype.kind in "fc":
+                out[...] = np.nan
+            elif out.dtype.kind == "b":
+                out[...] = ~out
+            else:
+                out[...] = np.iinfo(out.dtype).max if out.dtype.kind in "iu" else out
+            n += 1
+        except Exception:
+            pass
+    return n
